@@ -119,8 +119,9 @@ impl DeepClone for b::TermId {
                     }
                 }
             }
-            | b::Term::Sealed(_term) => {
-                unreachable!()
+            | b::Term::Sealed(term) => {
+                let b::Sealed(term) = term;
+                b::Sealed(term.deep_clone(desugarer)).into()
             }
             | b::Term::Ann(term) => {
                 let b::Ann { tm, ty } = term;
